@@ -27,7 +27,7 @@ TIERS = {"quick": {"runs": 80000, "budget": 75, "run_timeout": 20}, "thorough": 
 
 
 def make_case(i, rng, tier):
-    inp, data, recs, fam = common.gen_malformed(rng, i, p_wellformed=0.03, huge=True)
+    inp, data, recs, fam = common.gen_malformed(rng, i, p_wellformed=0.03, huge="mid")
     main = common.spec("main", inp["root"], data, inp["cc"], inp["enc"], strict=False)
     tasks, sched = common.perturb(rng, [main], p_by=0.1, roots=True)
     return {"input": {"root": inp["root"], "cc": inp["cc"], "enc": inp["enc"], "label": inp["label"], "family": fam,
